@@ -152,8 +152,14 @@ theorem stack_complete (l : Logger) (fe : FrontEnd) (hbal : balanced fe) (hfe : 
   rw [via_selects l fe hbal hfe w hskip addCaller true slab hslab pre zap ws user (outer ++ [last]) hpre hzap hws]
   simp [formatStack]
 
+/-- frame selection of stack.go in isolation: the first frame is always formatted, then every further frame except
+    the one for which `Next` reports `more = false` (runtime.goexit / runtime.main) -/
+theorem last_runtime_frame_dropped (f : F) (mid : List F) (last : F) :
+    formatFrom (f :: (mid ++ [last])) = f :: mid := by
+  simp [formatFrom, formatStack]
+
 /-- a one-frame capture keeps its only frame (`FormatFrame` of the first frame is unconditional) -/
-theorem format_single (f : F) : formatFrom [f] = [f] := rfl
+example (f : F) : formatFrom [f] = [f] := rfl
 
 /-- **stack_iff_level**: a stack is attached exactly when the entry is written, the AddStacktrace enabler accepts its
     level, and the requested frame exists -/
